@@ -142,7 +142,7 @@ func genC06(c *Ctx) {
 		}
 		c.add(Case{Kind: f.name + "-nofile", Nontrivial: true, Oracle: oracle, Note: f.name + ".File on a path that cannot be opened"})
 	}
-	interleaved(c)
+	interleaved(c, "")
 	gzipLookalike(c)
 }
 
@@ -171,6 +171,7 @@ func genC07(c *Ctx) {
 				once := itemsStr(f.decode(&faultReader{data: data[:k]}, 0, limit))
 				forever := itemsStr(f.decode(&faultReader{data: data[:k], forever: true}, 0, limit))
 				small := itemsStr(f.decode(&faultReader{data: data[:k], forever: true, chunk: 3}, 0, limit))
+				together := itemsStr(f.decode(&faultReader{data: data[:k], withData: true}, 0, limit))
 				oracle := ""
 				chk := func(got, mode string) {
 					if oracle != "" {
@@ -207,6 +208,10 @@ func genC07(c *Ctx) {
 				chk(once, "error once then EOF")
 				chk(forever, "error forever")
 				chk(small, "error forever, 3-byte reads")
+				chk(together, "error returned together with the last bytes")
+				if oracle == "" && together != once {
+					oracle = "error delivered together with the last bytes gives a different result: " + trunc(together, 80) + " / " + trunc(once, 80)
+				}
 				if oracle == "" && (once != forever || once != small) {
 					oracle = "fault behaviours disagree: " + trunc(once, 80) + " / " + trunc(forever, 80) + " / " + trunc(small, 80)
 				}
@@ -500,9 +505,21 @@ func genC11(c *Ctx) {
 
 func genC18(c *Ctx) {
 	for _, f := range formats {
-		for i := 0; i < c.n(60); i++ {
+		big := c.boundaryInputs(f.name)
+		if len(big) > 6 {
+			big = big[:6]
+		}
+		// several records spread over more than one buffer refill
+		var multi []byte
+		for len(multi) < 10000 {
+			multi = append(multi, f.wellFormed(c)...)
+		}
+		big = append(big, multi)
+		for i := 0; i < c.n(60)+len(big); i++ {
 			var data []byte
-			if i%2 == 0 {
+			if i >= c.n(60) {
+				data = big[i-c.n(60)]
+			} else if i%2 == 0 {
 				data = f.wellFormed(c)
 			} else {
 				data = f.malformed(c)
@@ -549,12 +566,20 @@ func genC18(c *Ctx) {
 			}
 			// a reader that fails after the last byte, stopped at every position
 			if oracle == "" && i%2 == 0 {
-				fullF, stF := f.decode(&faultReader{data: data, chunk: 64}, 0, limit)
+				withData := i%4 == 0 // the error arrives together with the last bytes: it is latched while records are still buffered
+				fullF, stF := f.decode(&faultReader{data: data, chunk: 64, withData: withData}, 0, limit)
+				if withData {
+					fullF, stF = f.decode(&faultReader{data: data, withData: true}, 0, limit)
+				}
 				if stF != "" {
 					oracle = "faulting reader, uninterrupted: " + stF
 				}
 				for j := 1; j <= len(fullF) && oracle == ""; j++ {
-					got, s := f.decode(&faultReader{data: data, chunk: 64}, j, limit)
+					fr := &faultReader{data: data, chunk: 64}
+					if withData {
+						fr = &faultReader{data: data, withData: true}
+					}
+					got, s := f.decode(fr, j, limit)
 					stops++
 					if s != "" {
 						oracle = fmt.Sprintf("faulting reader, stopping after %d items: %s", j, s)
